@@ -187,6 +187,13 @@ func c08rlOne(s *rlScn, idx int) verdict {
 
 	msg := func(i int) {
 		pay := fmt.Sprintf(`<rpc-reply xmlns="urn:ietf:params:xml:ns:netconf:base:1.0" message-id="%d"><data><v>%d</v></data></rpc-reply>`, 100+i, i)
+		bodyKind := "body"
+
+		if i%2 == 1 {
+			// the reply mentions a subscription (what the reply to establish-subscription looks like): token "sbody"
+			pay = fmt.Sprintf(`<rpc-reply xmlns="urn:ietf:params:xml:ns:netconf:base:1.0" message-id="%d"><data><v>%d</v><subscription-id>7</subscription-id></data></rpc-reply>`, 100+i, i)
+			bodyKind = "sbody"
+		}
 
 		var framed []byte
 		if s.Version == "1.1" {
@@ -213,7 +220,7 @@ func c08rlOne(s *rlScn, idx int) verdict {
 		cut1 := bytes.Index(framed, []byte(`">`)) + 2
 		cut2 := bytes.LastIndex(framed, delim)
 		tokens[rlTok{"hdr", i}] = framed[cut0:cut1]
-		tokens[rlTok{"body", i}] = framed[cut1:cut2]
+		tokens[rlTok{bodyKind, i}] = framed[cut1:cut2]
 		tokens[rlTok{"end", i}] = framed[cut2:]
 	}
 
@@ -427,7 +434,7 @@ func c08rlOne(s *rlScn, idx int) verdict {
 		}
 	}
 
-	if err = tr.release(append(append(append(append([]byte(nil), tokens[rlTok{"pre", p}]...), tokens[rlTok{"hdr", p}]...), tokens[rlTok{"body", p}]...), tokens[rlTok{"end", p}]...)); err != nil {
+	if err = tr.release(append(append(append(append([]byte(nil), tokens[rlTok{"pre", p}]...), tokens[rlTok{"hdr", p}]...), append(tokens[rlTok{"body", p}], tokens[rlTok{"sbody", p}]...)...), tokens[rlTok{"end", p}]...)); err != nil {
 		return tool("%v", err)
 	}
 
